@@ -98,8 +98,8 @@ package dns
 // dispatch: the first question's name and type select the handler; without a question or a match the request
 // is refused; patterns are registered and removed under their canonical (lower-case, fully qualified) form,
 // the form match looks names up by
+// (panic-freedom is checked here: a request without a question must be refused, not indexed)
 //@ func (*ServeMux).ServeDNS [C14]
-//@   opt no-safety
 //@   requires mux != nil && req != nil
 //@   callsite "match" first: len(req.Question) >= 1 && arg1 == req.Question[0].Name && arg2 == req.Question[0].Qtype
 //@   callsite "ServeDNS" matched: called("match") && callres("match") != nil && arg0 == w && arg1 == req
